@@ -534,6 +534,23 @@ func (e *Engine) verifyFunction(fc *FuncContract) (*VC, error) {
 		texts = append(texts, acs...)
 	}
 	texts = append(texts, fc.Reachable...)
+	// predicates may mention call events too
+	for _, pd := range e.contracts.Preds {
+		if strings.Contains(pd.Body, "calls(") || strings.Contains(pd.Body, "callarg(") || strings.Contains(pd.Body, "callsum(") {
+			for _, t := range append(append(append([]string{}, fc.Requires...), fc.Ensures...), fc.Reachable...) {
+				if strings.Contains(t, pd.Name+"(") {
+					texts = append(texts, pd.Body)
+				}
+			}
+			for _, lc := range fc.Loops {
+				for _, t := range lc.Invariants {
+					if strings.Contains(t, pd.Name+"(") {
+						texts = append(texts, pd.Body)
+					}
+				}
+			}
+		}
+	}
 	for _, t := range texts {
 		for _, m := range callsRe.FindAllStringSubmatch(t, -1) {
 			vc.eventNames[m[1]] = true
